@@ -9,7 +9,11 @@ EXPLANATION = (
     "table generators) denotes exactly the 8 knight / 8 king displacements on all 64 squares with exact edge behaviour "
     "(finite-domain evaluation of the extracted term against the geometric relation), slot i being built from square "
     "1<<i; (R2) slider deltas are the 4 rook and 4 bishop directions in the engine and in the build-time generator, and "
-    "the two ray walkers (slider_moves/try_offset vs SlidingPiece::targets/try_offset) are term-equal siblings; "
+    "both ray walkers (engine slider_moves, generator SlidingPiece::targets) are decided against the geometric relation: "
+    "their step function (continue iff the current square is no blocker and the next square is on the board, then add "
+    "the next square; start on the piece square, result accumulated from EMPTY) is read off the MIR and evaluated on all "
+    "64 squares x 8 directions x blocker configurations, with try_offset as an atom whose own meaning (bounds-checked "
+    "(rank+dr, file+df)) is checked separately and term-equal in both crates; "
     "(R3) engine magic_index = generator magic_index + offset: ((blockers & mask) * magic) >> shift; (R4) the generator "
     "accepts a magic only when try_make_table returned Ok, which returns Err whenever a filled slot differs, with "
     "shift = 64 - bits, table length 1 << bits and offsets = running sum before the increment; (R5) lookups use the "
@@ -203,17 +207,161 @@ def r2_deltas(ctx):
             rng = [show_cond(c) for c in o.conds]
             okt = okt and all('Range(0, 8)' in r and '== 1' in r for r in rng) and len(rng) == 2
     ctx.ob(rule, MT + 'try_offset', 'Some(from_rank_file(rank+dr, file+df)) iff both stay within 0..8', okt, expected='bounds-checked step')
-    s1 = Engine(facts, readonly=ro | {MT + 'try_offset'}).run(MT + 'slider_moves')
-    s2 = Engine(facts, readonly=ro | {PM + 'try_offset'}).run(PM + 'SlidingPiece::targets')
-    ctx.touch(MT + 'slider_moves', PM + 'SlidingPiece::targets')
-    ren = [(PM + 'try_offset', 'TRY'), (MT + 'try_offset', 'TRY'), ('try_offset', 'TRY'), ('*arg1.move_offsets', 'DELTAS'), ('*arg1', 'DELTAS'), ('arg1', 'DELTAS')]
-    n1, n2 = norm_outcomes(s1, ren), norm_outcomes(s2, ren)
-    ctx.ob(rule, MT + 'slider_moves', 'engine slider_moves and generator SlidingPiece::targets are term-equal siblings', n1 == n2 and len(n1) >= 3,
-           found=sorted(n1 ^ n2)[:2], expected='identical loop structure: walk until the ray leaves the board or has included a blocker',
-           why='the engine refills the tables with its own walker; it must reproduce what the magics were validated against')
-    # ray loop includes the first blocker then stops: loop condition !blockers.overlaps(ray) tested before stepping
-    okr = any('BitAnd' in x and 'backedge' in x for x in n1)
-    ctx.ob(rule, MT + 'slider_moves', 'ray continues only while the current square is not a blocker', okr, found=sorted(n1)[:2], nontrivial=False)
+    n1 = ray_walker(ctx, rule, MT + 'slider_moves', MT + 'try_offset', 2, 3,
+                    lambda el: any(x == ('p', 1) for x in subterms(el)))
+    n2 = ray_walker(ctx, rule, PM + 'SlidingPiece::targets', PM + 'try_offset', 2, 3,
+                    lambda el: any(x[0] == 'fld' and x[2] == 'move_offsets' for x in subterms(el)))
+    ctx.floor(rule, 'ray-step cases evaluated', (n1 or 0) + (n2 or 0), 2 * 64 * 8 * 8)
+
+
+def _cond_holds(cs, env):
+    """True / False / None(not evaluable) for a conjunction of path conditions under env"""
+    for a, v in cs:
+        try:
+            x = env[a] if a in env else ev(a, env)
+        except Unevaluable:
+            return None
+        if isinstance(v, tuple) and v[0] == 'not':
+            if x in v[1]:
+                return False
+        elif x != int(v):
+            return False
+    return True
+
+
+def ray_walker(ctx, rule, name, try_name, sq_param, bl_param, deltas_ok):
+    """Decide the slider ray walk of `name` against the geometric relation.
+
+    Per direction the walk starts on the piece's square; it continues from a ray square r iff r is not a blocker and the step stays
+    on the board, then moves to the next square and adds it to the result; otherwise it leaves the result unchanged.  The step
+    function is read off the MIR (inner loop: conditions and updated values of `ray` and `moves`), with try_offset as an atom
+    whose meaning is decided separately, and evaluated for all 64 squares x 8 directions x blocker / no blocker."""
+    facts = ctx.facts
+    ro = {'common::bitboard::square::to_rank_file', 'common::bitboard::square::from_rank_file', try_name}
+    outs = Engine(facts, readonly=ro).run(name)
+    ctx.touch(name)
+    tries = {s_ for o in outs for c in o.conds for s_ in subterms(c[0]) if s_[0] == 'call' and s_[1] == try_name}
+    tries |= {s_ for o in outs for t_ in (o.locals or {}).values() for s_ in subterms(t_) if s_[0] == 'call' and s_[1] == try_name}
+    if len(tries) != 1:
+        ctx.ob(rule, name, 'one step call per ray iteration', False, found=[show(t_) for t_ in tries])
+        return
+    T = next(iter(tries))
+    ray = T[2][0]
+    while ray[0] in ('ref', 'der'):
+        ray = ray[1]
+    if ray[0] != 'lv':
+        ctx.ob(rule, name, 'the step starts from the loop-carried ray square', False, found=show(ray))
+        return
+    Hin, lray = ray[1], ray[2]
+    # direction arguments: (.0, .1) of one element of the direction list
+    def el_of(t_):
+        t_ = strip_cast(t_)
+        while t_[0] in ('ref', 'der'):
+            t_ = t_[1]
+        return (t_[1], t_[2]) if t_[0] == 'fld' else (None, None)
+    e1, f1 = el_of(T[2][1])
+    e2, f2 = el_of(T[2][2])
+    ctx.ob(rule, name, 'step direction = (d_rank, d_file) of one element of the direction list', e1 is not None and e1 == e2 and (f1, f2) == ('0', '1'),
+           found=[show(T[2][1]), show(T[2][2])], expected='try_offset(ray, d_rank, d_file)')
+    heads = {}
+    for o in outs:
+        for e in o.events:
+            if e[0] == 'loop_head':
+                heads[e[2]] = e[3]
+    outer = [h for h in heads if h != Hin]
+    if len(outer) != 1:
+        ctx.ob(rule, name, 'two nested loops (directions, ray)', False, found=sorted(heads))
+        return
+    Hout = outer[0]
+    src = [v for v in heads[Hout].values() if isinstance(v, tuple) and v[0] == 'call' and v[1].endswith('into_iter')]
+    ctx.ob(rule, name, 'directions iterated = the direction list handed in', len(src) == 1 and deltas_ok(src[0]), found=[show(v) for v in src])
+    # moves: the loop-carried local returned at the end
+    rets = [o for o in outs if o.kind == 'return']
+    mv = rets[0].value if len(rets) == 1 else None
+    okm = mv is not None and mv[0] == 'lv' and mv[1] == Hout
+    lm = mv[2] if okm else None
+    init_m = heads[Hout].get(lm) if okm else None
+    try:
+        init0 = okm and ev(init_m, {}) == 0
+    except Unevaluable:
+        init0 = False
+    ctx.ob(rule, name, 'result = the accumulated set, starting from EMPTY', bool(okm and init0), found=show(mv) if mv else None)
+    if not okm:
+        return
+    pre = heads[Hin]
+    start_ok = pre.get(lray) == ('p', sq_param) and pre.get(lm) == ('lv', Hout, lm)
+    ctx.ob(rule, name, 'each direction starts on the piece square and keeps the squares found so far', start_ok,
+           found={'ray': show(pre.get(lray)) if lray in pre else None, 'moves': show(pre.get(lm)) if lm in pre else None})
+    through = [o for o in outs if any(e[0] == 'loop_head' and e[2] == Hin for e in o.events) and o.kind in ('backedge', 'return')]
+    cont = [o for o in through if o.kind == 'backedge' and o.where[1] == Hin]
+    leave = [o for o in through if not (o.kind == 'backedge' and o.where[1] == Hin)]
+    lvr, lvm = ('lv', Hin, lray), ('lv', Hin, lm)
+    dT = ('discr', T)
+    nxt = ('fld', T, 'Some.0')
+    bad = []
+    cases = 0
+    DIRS8 = ROOK_DIRS + BISHOP_DIRS
+    for r in range(64):
+        rk, fl = geom_rank_file(r)
+        for dr, df in DIRS8:
+            nr, nf = rk + dr, fl + df
+            on = 0 <= nr < 8 and 0 <= nf < 8
+            nb = geom_bit(nr, nf) if on else 0
+            for inb in (0, 1):
+                for others in (0, ((1 << 64) - 1) & ~(1 << r) & ~nb, nb, ((1 << 64) - 1) & ~(1 << r)):
+                    cases += 1
+                    M0 = 0x0000100000000000 if r != 44 else 0x2
+                    env = {lvr: 1 << r, ('p', bl_param): ((1 << r) if inb else 0) | others, lvm: M0, dT: 1 if on else 0, nxt: nb}
+                    c = [o for o in cont if _cond_holds([x for x in o.conds if _evaluable(x, env)], env)]
+                    l_ = [o for o in leave if _cond_holds([x for x in o.conds if _evaluable(x, env)], env)]
+                    want_cont = (not inb) and on
+                    if want_cont:
+                        if len(c) != 1 or l_:
+                            bad.append((sq_name(1 << r), (dr, df), 'blocker' if inb else 'free', 'should continue'))
+                            continue
+                        try:
+                            r2 = ev(c[0].locals[lray], env)
+                            m2 = ev(c[0].locals[lm], env)
+                        except Unevaluable:
+                            bad.append((sq_name(1 << r), (dr, df), 'update not evaluable'))
+                            continue
+                        if r2 != nb or m2 != (M0 | nb):
+                            bad.append((sq_name(1 << r), (dr, df), 'ray/moves update', hex(r2), hex(m2)))
+                    else:
+                        if c or not l_:
+                            bad.append((sq_name(1 << r), (dr, df), 'blocker' if inb else 'free', 'on board' if on else 'edge', 'should stop'))
+                            continue
+                        for o in l_:
+                            try:
+                                m2 = ev(o.locals[lm], env) if o.locals and lm in o.locals else None
+                            except Unevaluable:
+                                m2 = None
+                            if m2 != M0:
+                                bad.append((sq_name(1 << r), (dr, df), 'result changed on the stopping path'))
+    ctx.ob(rule, name, 'ray step: continue iff the current square is no blocker and the next square is on the board; then add the next square', not bad,
+           found=bad[:4] or '%d step cases' % cases, expected='walk up to and including the first blocker or the edge',
+           why='the tables are filled with (and the magics validated against) this walk: it must be the attack set of a slider')
+    return cases
+
+
+def _evaluable(c, env):
+    try:
+        if c[0] in env:
+            return True
+        ev(c[0], env)
+        return True
+    except Unevaluable:
+        return False
+
+
+def geom_rank_file(i):
+    """(rank, file) with this code base's square numbering: bit i, file index 7 - (i % 8) is handled by to_rank_file itself; the
+    walker only sees try_offset as an atom, so any consistent numbering works: use rank = i // 8, file = i % 8"""
+    return i // 8, i % 8
+
+
+def geom_bit(rank, file):
+    return 1 << (rank * 8 + file)
 
 
 def r3_index(ctx):
